@@ -85,6 +85,14 @@ Verdict(D, c) ==
 \* distinct group members, including the leader (index 0), contributed to the aggregated signature
 Quorum(n, fb, sg) == 0 \in sg /\ Cardinality(sg) >= Threshold(n, fb) /\ sg \subseteq 0..(n - 1)
 
+\* The input class of the named deviation "paddingCounted": an honestly aggregated header with the leader bit,
+\* the right length, too few MEMBER bits, but enough set bits once the padding bits of the last byte are counted
+PaddingCountedCase(c) ==
+    /\ c.bm # <<>> /\ Bit(c.bm, 0) /\ Len(c.bm) = ExpectedBitmapSize(c.n)
+    /\ c.sg = Selected(c.n, c.bm)
+    /\ Cardinality(MemberBits(c.n, c.bm)) < Threshold(c.n, c.fb)
+    /\ OnesCountAll(c.bm) >= Threshold(c.n, c.fb)
+
 -----------------------------------------------------------------------------
 (* VerifySignature, stage by stage *)
 
@@ -103,11 +111,12 @@ Rec(r) ==
               padding |-> Cardinality(PaddingBits(inp.n, inp.bm)),
               thr |-> Threshold(inp.n, inp.fb),
               \* class of the case, used for violation signatures only
-              cls |-> IF inp.bm = <<>> \/ ~Bit(inp.bm, 0) THEN "leader-bit-clear"
-                      ELSE IF Len(inp.bm) # ExpectedBitmapSize(inp.n) THEN "wrong-size-bitmap"
-                      ELSE IF inp.sg # Selected(inp.n, inp.bm) THEN "aggregate-not-over-selected-keys"
-                      ELSE IF PaddingBits(inp.n, inp.bm) # {} THEN "padding-bits-set"
-                      ELSE "no-padding"],
+              cls |-> IF PaddingCountedCase(inp) THEN "Inv_C17_Quorum_PaddingCounted"
+                      ELSE IF inp.bm = <<>> \/ ~Bit(inp.bm, 0) THEN "Inv_C17_Quorum_ExceptPaddingCounted/leader-bit-clear"
+                      ELSE IF Len(inp.bm) # ExpectedBitmapSize(inp.n) THEN "Inv_C17_Quorum_ExceptPaddingCounted/wrong-size-bitmap"
+                      ELSE IF inp.sg # Selected(inp.n, inp.bm)
+                           THEN "Inv_C17_Quorum_ExceptPaddingCounted/aggregate-not-over-selected-keys"
+                      ELSE "Inv_C17_Quorum_ExceptPaddingCounted/below-threshold"],
      st |-> [x |-> 0]]
 
 Finish(r) == /\ pc' = "done" /\ res' = r /\ hist' = Log(hist, Rec(r)) /\ UNCHANGED inp
@@ -146,6 +155,13 @@ TypeOK ==
 
 \* C17: a header passes only with a quorum of real contributors including the leader
 Inv_C17_Quorum == res = "ok" => Quorum(inp.n, inp.fb, inp.sg)
+
+\* the same predicate split by input class (the trace configs list them separately, so that the known
+\* deviation has its own signature and never hides a different violation)
+Inv_C17_Quorum_PaddingCounted ==
+    (res = "ok" /\ PaddingCountedCase(inp)) => Quorum(inp.n, inp.fb, inp.sg)
+Inv_C17_Quorum_ExceptPaddingCounted ==
+    (res = "ok" /\ ~PaddingCountedCase(inp)) => Quorum(inp.n, inp.fb, inp.sg)
 
 \* C17, second sentence: bits that are not members never count -- the verdict of the size stage does not
 \* depend on padding bits: reaching the multisig stage implies enough MEMBER bits
